@@ -97,6 +97,40 @@ fn check_best_component(prev: &Option<TInd>, pop: &[TInd]) -> Option<(String, St
     }
 }
 
+/// The update component executed repeatedly on one state while the current population is exchanged between
+/// the executions (no evaluation in between, the evaluation counter present and unchanged): after every
+/// execution the best is at least as good as every member of the population it was just shown.
+fn check_update_on_exchanged_populations(pops: &[Vec<TInd>], counter: Option<u32>) -> Option<(String, String)> {
+    let mut st = state_with::<TagP>(vec![vec![]]);
+    if let Some(c) = counter {
+        st.insert(mahf::state::common::Evaluations(c));
+    }
+    let c = BestIndividualUpdate::new::<TagP>();
+    let ctx = |w: String| format!("BestIndividualUpdate executed once per population of {:?} on one state (evaluation counter {:?}, unchanged): {}", pops, counter, w);
+    if let Err(e) = c.init(&TagP, &mut st) {
+        return Some(("C07 BestIndividualUpdate error".into(), ctx(format!("init: {:#}", e))));
+    }
+    let mut shown_min = f64::INFINITY;
+    for (k, p) in pops.iter().enumerate() {
+        *st.populations_mut().current_mut() = tpop(p);
+        match catch(|| c.execute(&TagP, &mut st)) {
+            Err(pn) => return Some(("C07 BestIndividualUpdate panic".into(), ctx(pn))),
+            Ok(Err(e)) => return Some(("C07 BestIndividualUpdate error".into(), ctx(format!("{:#}", e)))),
+            _ => {}
+        }
+        shown_min = p.iter().map(|i| i.1).fold(shown_min, f64::min);
+        let best = st.best_individual().map(|i| i.objective().value());
+        let ok = match best {
+            None => shown_min == f64::INFINITY && pops[..=k].iter().all(|q| q.is_empty()),
+            Some(b) => b == shown_min,
+        };
+        if !ok {
+            return Some(("C07 BestIndividualUpdate repeated-execution best!=min-shown".into(), ctx(format!("after execution {} the best is {:?}, the best objective value shown so far is {}", k, best, shown_min))));
+        }
+    }
+    None
+}
+
 fn archive_of(st: &mahf::State<TagP>) -> Vec<TInd> {
     st.borrow::<ElitistArchive<TagP>>().elitists().iter().map(|i| (*i.solution(), i.objective().value())).collect()
 }
@@ -184,6 +218,7 @@ fn check_archive(k: usize, pops: &[Vec<TInd>], target: &[TInd], each: bool) -> O
 pub fn run_part_a(rep: &mut Report) {
     let thorough = rep.tier == Tier::Thorough;
     rep.alpha("BestIndividual::update over all candidate sequences of length <= 4 (quick) / 5 (thorough) on objectives {0,1,2,+inf}, and <= 3 on {0.0,-0.0,1e-17}, with distinct solutions (ties = different solution, equal objective)");
+    rep.alpha("BestIndividualUpdate executed 2..3 times on one state with the population exchanged in between and the evaluation counter absent / unchanged");
     rep.alpha("BestIndividualUpdate on every population of size 0..3 over the grid x previous best in {none, 0, 1, 2, +inf}");
     rep.alpha("ElitistArchiveUpdate over all sequences of <= 2 (quick) / 3 (thorough) populations of size <= 2 x capacity 0..4, with ElitistArchiveIntoPopulation into {empty, first shown population, unrelated population} after the last or after every update");
     let mut p = Part::new("best.update-sequences");
@@ -237,6 +272,21 @@ pub fn run_part_a(rep: &mut Report) {
                 p.states += 1;
                 if let Some((sg, d)) = check_best_component(&prev, &pop) {
                     p.violate(sg, d, json!({"kind": "bcomp", "prev": prev.map(|x| jv(&[x])), "pop": jv(&pop)}));
+                }
+            }
+        }
+    }
+    for l in 2..=3usize {
+        for seq in sequences(3, l) {
+            // populations (tag, objective): each sequence element picks one of three small populations
+            let choice = [vec![(0u32, 3.0)], vec![(1u32, 1.0), (2, 2.0)], vec![(3u32, 0.5)]];
+            let pops: Vec<Vec<TInd>> = seq.iter().map(|k| choice[*k].clone()).collect();
+            for counter in [None, Some(0u32), Some(5)] {
+                p.transitions += l as u64;
+                p.traces += 1;
+                p.states += 1;
+                if let Some((sg, d)) = check_update_on_exchanged_populations(&pops, counter) {
+                    p.violate(sg, d, json!({"kind": "bswap", "pops": pops.iter().map(|q| jv(q)).collect::<Vec<_>>(), "counter": counter}));
                 }
             }
         }
@@ -308,6 +358,10 @@ pub fn run_part_a(rep: &mut Report) {
 }
 
 pub fn replay_a(case: &Value) -> Result<Vec<(String, String)>, String> {
+    if case["kind"].as_str() == Some("bswap") {
+        let pops: Vec<Vec<TInd>> = case["pops"].as_array().ok_or("no pops")?.iter().map(pj).collect();
+        return Ok(check_update_on_exchanged_populations(&pops, case["counter"].as_u64().map(|c| c as u32)).into_iter().collect());
+    }
     Ok(match case["kind"].as_str().unwrap_or("") {
         "useq" => check_update_sequence(&pj(&case["seq"])).into_iter().collect(),
         "bcomp" => {
